@@ -18,7 +18,7 @@ import (
 
 // ---- C05 emit stage: generate definitions + inputs, run the generator binary, write the package ----
 
-var c05RuleOpts = lexgen.RuleOpts{NoBackrefs: true, NoNullable: true, Pat: lexgen.PatOpts{NoLazy: true}}
+var c05RuleOpts = lexgen.RuleOpts{NoBackrefs: true, NoNullable: true, IdentNames: true, Pat: lexgen.PatOpts{NoLazy: true}}
 
 type c05Batch struct {
 	RS     *lexgen.RuleSet
